@@ -53,7 +53,7 @@ add("C03", ["v_derive_arith"], ["evo_"],
     technique="Kani contract harnesses over a generated history family", trusted_base=TB, programs=20)
 add("C04", ["v_derive_arith"], ["fam_packed_", "fam_vec_", "packed_tuples_"],
     level_text="Decision soundness: Packed::repr_c_optimization_safe(v).is_yes() ==> size_of == |enc| and memory image == field-wise encoding, for all values and all versions <= current, per family member (Kani, complete). Transparency: Vec<T> bytes == length ++ element encodings and loads element-wise equal (bounded: length 2). min_safe_version arithmetic proved by Verus.",
-    level_note="Bounded over definitions; Vec length 2. Box<[T]>, Arc<[T]>, [T;N], ArrayVec share the Packed decision but their bulk paths are not separately harnessed.",
+    level_note="Bounded over definitions; Vec length 2. The bulk paths of Box<[T]>, Arc<[T]>, [T;N], ArrayVec (which share the Packed decision) are covered only by the bounded native runs nbulk_<family type>.",
     technique="Kani contract harnesses per type; Verus contract on AttrsResult::min_safe_version", trusted_base=TB)
 add("C05", ["v_diff"], ["hdr_"],
     level_text="diff_schema(a,b) is None <==> wire_equiv(a,b) for all schema trees of the serialisable fragment (Verus, unbounded, real function text); header gate (magic, library-format version, data version, before any payload byte) by Kani for all header values.",
